@@ -184,10 +184,21 @@ def part_soup(ctx):
     ctx.hyp('soup', st.binary(min_size=120, max_size=120), body, max_examples=1500 if ctx.quick else 20000)
 
 
+def part_chars(ctx):
+    def body(seed):
+        ch = Choices(seed)
+        src = lexatoms.char_soup(ch)
+        ref = check_source(src, {'text': src}, ch, ctx.open_findings, ctx.stats)
+        if ref is not None:
+            labs = labels(src, ref) + ['char_soup']
+            ctx.stats.case(src, nontrivial(ref), {'text': show(src, 140), 'labels': labs}, labs)
+    ctx.hyp('chars', st.binary(min_size=90, max_size=90), body, max_examples=2500 if ctx.quick else 30000)
+
+
 def parts(tier):
     if tier == 'quick':
-        return [('programs', part_programs, 4), ('strings', part_strings, 6), ('soup', part_soup, 4)]
-    return [('programs', part_programs, 5), ('strings', part_strings, 7), ('soup', part_soup, 4)]
+        return [('programs', part_programs, 4), ('strings', part_strings, 5), ('soup', part_soup, 3), ('chars', part_chars, 4)]
+    return [('programs', part_programs, 4), ('strings', part_strings, 5), ('soup', part_soup, 3), ('chars', part_chars, 4)]
 
 
 def replay(case):
